@@ -333,6 +333,7 @@ inline void emplace_n(T *pos, SizeType n, Args &&...args) {
       relocate_after_shift(e.ptr(), pos);
     } catch (...) {
       shift_left(pos + 1, n);
+      amc::destroy_at(e.ptr());
       throw;
     }
   }
@@ -924,13 +925,19 @@ class DynamicVector : public DynamicVectorBaseTypeDispatcher<T, Alloc, SizeType,
       }
       pos = this->begin() + idx;
       if (nElemsToShift == 0) {
-        amc::relocate_at(e.ptr(), pos);
+        try {
+          amc::relocate_at(e.ptr(), pos);
+        } catch (...) {
+          amc::destroy_at(e.ptr());
+          throw;
+        }
       } else {
         shift_right(pos, nElemsToShift);
         try {
           relocate_after_shift(e.ptr(), pos);
         } catch (...) {
           shift_left(pos + 1, nElemsToShift);
+          amc::destroy_at(e.ptr());
           throw;
         }
       }
@@ -960,7 +967,12 @@ class DynamicVector : public DynamicVectorBaseTypeDispatcher<T, Alloc, SizeType,
         throw;
       }
       endIt = this->dynStorage() + this->size();
-      amc::relocate_at(e.ptr(), endIt);
+      try {
+        amc::relocate_at(e.ptr(), endIt);
+      } catch (...) {
+        amc::destroy_at(e.ptr());
+        throw;
+      }
     } else {
       endIt = this->begin() + this->size();
       amc::construct_at(endIt, std::forward<Args &&>(args)...);
